@@ -34,6 +34,8 @@ LEVEL_TEXT = (
 LEVEL_NOTE = "Bounded: five rates, charts of <=5 notes and 2 tempo points on a quarter-beat grid; 'all r>0' is not covered."
 
 RATES = [0.5, 1.0, 1.5, 2.0, 4.0 / 3.0]
+# thorough: slow-downs, non-dyadic and large rates as well
+RATES_T = RATES + [0.25, 2.0 / 3.0, 0.9, 1.1, 3.0, 10.0, 1e-3]
 REL = 1e-12
 TIME_META = {"OsuMap": ["preview_time"], "SMMapSet": ["sample_start", "sample_length", "offset"]}
 PRE = [None, "stack", "rate2", "used"]
@@ -60,11 +62,11 @@ def subjects(tier):
 def pairs(tier):
     if tier == "quick":
         return [(0.5, 2.0), (1.5, 4.0 / 3.0), (2.0, 1.5), (4.0 / 3.0, 4.0 / 3.0), (1.0, 2.0), (2.0, 1.0), (0.5, 0.5), (1.5, 0.5)]
-    return [(a, b) for a in RATES for b in RATES]
+    return [(a, b) for a in RATES_T for b in RATES_T]
 
 
 def bound(tier, seed):
-    return dict(subjects=len(subjects(tier)), rates=RATES, composition_pairs=len(pairs(tier)), earlier_operations=["none", "stack().offset += 0 (relabels rows)", "rate(2)", "rate+write once, then edit offsets and bpm in place"], file_roundtrip_games=["osu", "qua", "sm", "bms"])
+    return dict(subjects=len(subjects(tier)), rates=RATES if tier == "quick" else RATES_T, composition_pairs=len(pairs(tier)), earlier_operations=["none", "stack().offset += 0 (relabels rows)", "rate(2)", "rate+write once, then edit offsets and bpm in place"], file_roundtrip_games=["osu", "qua", "sm", "bms"])
 
 
 def roots(tier, seed):
@@ -109,7 +111,7 @@ def build(kind, g, v, pre):
 
 def explore(root, tier, ctx):
     kind, g, v, pre = subjects(tier)[root["i"]]
-    for r in RATES:
+    for r in RATES if tier == "quick" else RATES_T:
         check_rate(kind, g, v, pre, r, None, ctx)
     for a, b in pairs(tier):
         check_rate(kind, g, v, pre, a, b, ctx)
